@@ -2,7 +2,7 @@
    Statements only; each closed by [exact] of a lemma proved in Json/*P.v. *)
 From Coq Require Import List NArith ZArith.
 From PB Require Import Base.PBytes Json.JsonGrammar Json.JsonNumModel Json.JsonNumP Json.JsonIntP
-  Json.JsonLexModel Json.JsonLexP Json.JsonEncModel Json.JsonScalarModel Json.JsonScalarP Json.JsonB64P Json.JsonInt64P.
+  Json.JsonLexModel Json.JsonLexP Json.JsonEncModel Json.JsonScalarModel Json.JsonScalarP Json.JsonB64P Json.JsonB64VarP Json.JsonInt64P.
 Import ListNotations.
 Open Scope N_scope.
 
@@ -137,6 +137,15 @@ Theorem C22_bytes_base64_roundtrip :
   forall b tok, t_kind tok = KString -> t_str tok = b64_encode false b -> unmarshal_bytes tok = Some b.
 Proof. exact bytes_base64_roundtrip. Qed.
 Print Assumptions C22_bytes_base64_roundtrip.
+
+(* ... and each of the four encodings (standard / URL-safe alphabet, with / without padding:
+   base64.StdEncoding, URLEncoding, RawStdEncoding, RawURLEncoding) of b is accepted by
+   unmarshalBytes' variant selection and decodes to b *)
+Theorem C22_bytes_base64_accepts_all_variants :
+  forall url pad b tok, t_kind tok = KString -> t_str tok = b64_encode_variant url pad b ->
+    unmarshal_bytes tok = Some b.
+Proof. exact bytes_base64_accepts_all_variants. Qed.
+Print Assumptions C22_bytes_base64_accepts_all_variants.
 
 (* non-vacuity: notations of 100 into int32, and both F6 witnesses are in the class *)
 Example C22_ex_1e2 :
